@@ -5,7 +5,7 @@ PROPERTY = 'C03'
 THEOREMS = ['Sched.no_deadlock', 'Sched.clean_exit', 'Sched.raises_iff_cyclic', 'Sched.InvC_step', 'Sched.InvC_init', 'Sched.Inv_reach', 'Sched.bounded_executions', 'Sched.always_terminates', 'Sched.mu_decreases', 'Sched.InvG_step']
 BUDGET = {'quick': 250, 'thorough': 6000}
 TIME_LIMIT = {'quick': 55, 'thorough': 700}
-RULE = ('cyclic graphs (cycle made of hard edges, of soft edges, or closed by one soft edge), stale FAILED/SKIPPED/PENDING entries, repeated calls on the same backend (40% with another graph), all outcome kinds including SystemExit and non-final statuses' + '; the real QueueScheduling backend runs under the controlled scheduler; non-trivial = '
+RULE = ('cyclic graphs (cycle made of hard edges, of soft edges, or closed by one soft edge), stale FAILED/SKIPPED/PENDING entries, repeated calls on the same backend (40% with another graph), all outcome kinds including SystemExit and non-final statuses; 2%: schedulers created without a backend whose calls overlap (nested / concurrent), real threads in a child process' + '; the real QueueScheduling backend runs under the controlled scheduler; non-trivial = '
         '>= 3 tasks with >= 2 edges on >= 2 workers, or a special feature (cycle, stale entries, same backend, lost '
         'entries, several rounds); distinct = case hash')
 CORRESPONDS = sc.CORRESPONDS
@@ -18,21 +18,132 @@ AMBIENT_DEBUGLOG = False
 
 
 def gen(rng, tier, run):
+    if rng.random() < 0.02:
+        # schedulers created without a backend (each gets its own), whose calls overlap: one task schedules a graph of its
+        # own, or two threads schedule at the same time.  Real threads in a child process, 30 s of wall-clock time.
+        return {'overlap': {'mode': rng.choice(['nested', 'nested', 'concurrent']), 'inner': rng.randrange(1, 4),
+                            'outer': rng.randrange(1, 4), 'fail': rng.random() < 0.3}}
     return sc.gen(rng, tier, 'C03')
 
 
-shrink = sc.shrink
-run_impl = sc.run_impl
-run_model = sc.run_model
+OVERLAP_SCRIPT = r'''
+import json, sys, threading, warnings
+warnings.simplefilter('ignore')
+import logging
+logging.disable(logging.CRITICAL)
+from valjean.cosette.depgraph import DepGraph
+from valjean.cosette.pythontask import PythonTask
+from valjean.cosette.scheduler import Scheduler
+from valjean.cosette.task import TaskStatus
+spec = json.loads(sys.argv[1])
+ran = []
+
+def plain(name, fail=False):
+    def body():
+        ran.append(name)
+        if fail:
+            raise RuntimeError('scripted failure')
+        return {name: {'result': 1}}, TaskStatus.DONE
+    return PythonTask(name, body)
+
+def graph(prefix, n, extra=None, fail=False):
+    tasks = [plain(f'{prefix}{i}', fail and i == 0) for i in range(n)] + ([extra] if extra else [])
+    g = DepGraph()
+    for t in tasks:
+        g.add_node(t)
+    for a, b in zip(tasks[1:], tasks):
+        g.add_dependency(a, on=b)
+    return g
+
+out = {}
+def inner_job():
+    env = Scheduler(hard_graph=graph('in', spec['inner'], fail=spec['fail'])).schedule()
+    out['inner'] = sorted((k, int(v['status'])) for k, v in env.items())
+
+def nested_body():
+    ran.append('nest')
+    inner_job()
+    return {'nest': {'result': 1}}, TaskStatus.DONE
+
+def outer_job(extra=None):
+    env = Scheduler(hard_graph=graph('out', spec['outer'], extra)).schedule()
+    out['outer'] = sorted((k, int(v['status'])) for k, v in env.items())
+
+if spec['mode'] == 'nested':
+    outer_job(PythonTask('nest', nested_body))
+else:
+    th = threading.Thread(target=inner_job)
+    th.start()
+    outer_job()
+    th.join()
+out['ran'] = sorted(ran)
+out['threads'] = threading.active_count()
+print('RESULT ' + json.dumps(out))
+'''
+
+
+def run_overlap(case):
+    import json
+    import os
+    import subprocess
+    import sys
+    env = dict(os.environ, PYTHONPATH=os.environ.get('VERIF_REPO', '/repo'))
+    try:
+        proc = subprocess.run([sys.executable, '-c', OVERLAP_SCRIPT, json.dumps(case['overlap'])], env=env, timeout=30,
+                              stdout=subprocess.PIPE, stderr=subprocess.PIPE, text=True)
+    except subprocess.TimeoutExpired:
+        return {'overlap': 'timeout'}
+    line = next((ln for ln in proc.stdout.splitlines() if ln.startswith('RESULT ')), None)
+    if line is None:
+        return {'overlap': 'error', 'stderr': proc.stderr[-400:]}
+    return {'overlap': json.loads(line[7:])}
+
+
+def shrink(case):
+    if 'overlap' in case:
+        return iter(())
+    return sc.shrink(case)
+
+
+def run_impl(case, run):
+    if 'overlap' in case:
+        return run_overlap(case)
+    return sc.run_impl(case, run)
+
+
+def run_model(case, driver, run):
+    if 'overlap' in case:
+        return None
+    return sc.run_model(case, driver, run)
+
+
 compare = sc.compare
 
 
 def oracle(case, impl, run):
+    if 'overlap' in case:
+        spec, obs = case['overlap'], impl['overlap']
+        run.count('overlap:' + spec['mode'])
+        if obs == 'timeout':
+            return [('no_deadlock', f'schedulers created without a backend, calls that overlap ({spec}): not back after 30 s')]
+        if obs == 'error':
+            return [('clean_exit', f"overlapping calls ({spec}): the child process failed: {impl.get('stderr')}")]
+        fails = []
+        want_inner = [[f'in{i}', 4 if spec['fail'] and i == 0 else (5 if spec['fail'] else 3)] for i in range(spec['inner'])]
+        want_outer = [[f'out{i}', 3] for i in range(spec['outer'])] + ([['nest', 3]] if spec['mode'] == 'nested' else [])
+        if obs.get('inner') != sorted(want_inner) or obs.get('outer') != sorted(want_outer):
+            fails.append(('clean_exit', f"overlapping calls ({spec}): final statuses {obs.get('inner')} / {obs.get('outer')}, "
+                          f'expected {sorted(want_inner)} / {sorted(want_outer)}'))
+        if obs.get('threads') != 1:
+            fails.append(('clean_exit', f"overlapping calls ({spec}): {obs.get('threads')} threads alive after both calls came back"))
+        return fails
     sc.histogram(case, impl, run)
     return sc.oracle_c03(case, impl, run)[:6]
 
 
 def nontrivial(case, impl):
+    if 'overlap' in case:
+        return case
     return sc.nontrivial_key(case, impl)
 
 
